@@ -7,10 +7,12 @@ def I(name, entry, cfg, bound, **kw):
 SPEC = dict(
     property='C04',
     groups=[
-        dict(name='step', harness='h.cpp', tus=TUS, models=MODELS, shadow_task=True,
+        dict(name='step', harness='h.cpp', tus=TUS, models=MODELS, shadow_task=True, loop_bounds={r'^_ZNSt6ranges14__copy_or_move': 110},
              instances=[
                  I('start', 'start', 1 | 16, 'arbitrary INV pre-state'),
-             ] + [I('features_tls%d_ssl%d_s%d' % (t, l, k), 'features', l | 16 | t << 5 | k << 7, 'arbitrary INV pre-state; arbitrary features') for t in (0, 1, 2) for l in (0, 1) for k in (0, 1, 2)] + [I('features_tls%d_sslx_s%d' % (t, k), 'features', 512 | 16 | t << 5 | k << 7, '') for t in (1,) for k in (2,)
+             ] + [I('features_tls%d_ssl%d_s%d' % (t, l, k), 'features', l | 16 | t << 5 | k << 7, 'arbitrary INV pre-state; arbitrary features') for t in (0, 1, 2) for l in (0, 1) for k in (0, 1, 2)
+             ] + [I('stream_pre%d_el%d%s' % (pv, ev, 'st' if st else ''), 'stream', 1 | 2 | 4 | pv << 3 | st << 9 | (ev | 2 | 4) << 10, '') for pv in (0, 1) for ev in (0, 1) for st in (0, 1)
+             ] + [I('packet_starttls_ns%d' % n, 'packet_starttls', 1 | 16 | 512 | n << 10, '') for n in (0, 1)
              ]),
     ],
     bounds=[],
